@@ -16,6 +16,7 @@ type sinkPos struct {
 }
 
 type escInfo struct {
+	derived map[ssa.Value]map[ssa.Value]bool // allocation -> the values that are (parts of) its address
 	sinks map[ssa.Value][]sinkPos // allocation instruction -> positions where its address is handed out
 	reach map[*ssa.BasicBlock]map[*ssa.BasicBlock]bool
 }
@@ -24,7 +25,7 @@ func (fc *FnCtx) escapeInfo() *escInfo {
 	if fc.esc != nil {
 		return fc.esc
 	}
-	ei := &escInfo{sinks: map[ssa.Value][]sinkPos{}, reach: map[*ssa.BasicBlock]map[*ssa.BasicBlock]bool{}}
+	ei := &escInfo{derived: map[ssa.Value]map[ssa.Value]bool{}, sinks: map[ssa.Value][]sinkPos{}, reach: map[*ssa.BasicBlock]map[*ssa.BasicBlock]bool{}}
 	fc.esc = ei
 	idxOf := map[ssa.Instruction]int{}
 	for _, b := range fc.fn.Blocks {
@@ -122,6 +123,7 @@ func (fc *FnCtx) escapeInfo() *escInfo {
 					}
 				}
 				walk(root)
+				ei.derived[root] = seen
 			}
 		}
 	}
@@ -277,8 +279,36 @@ func (fc *FnCtx) havocCall(h *HeapState, mods map[string]bool) {
 		if ei.escapedAt(a, fc.curBlock, fc.curIdx) {
 			continue
 		}
+		if fc.curCall != nil && ei.passedTo(a, fc.curCall) {
+			// not handed out for good (the callee does not keep it), but this very call works on it
+			continue
+		}
 		fc.restoreLocal(h, &old, a, c, mods)
 	}
+}
+
+// passedTo: the call receives the address of allocation a, or of a part of it (receiver included).
+func (ei *escInfo) passedTo(a ssa.Value, c *ssa.CallCommon) bool {
+	d := ei.derived[a]
+	if d == nil {
+		return false
+	}
+	for _, arg := range c.Args {
+		if d[arg] {
+			return true
+		}
+	}
+	if c.IsInvoke() && d[c.Value] {
+		return true
+	}
+	if mc, ok := c.Value.(*ssa.MakeClosure); ok {
+		for _, b := range mc.Bindings {
+			if d[b] {
+				return true
+			}
+		}
+	}
+	return false
 }
 
 // restoreLocal: the heaps of local allocation a (reference term c) keep their pre-havoc contents.
